@@ -80,6 +80,9 @@ func HarnessC08Run() {
 	}
 }
 
+// Pure2: a pure environment method without harness bookkeeping (compile-time calls from several goroutines)
+func (e *vfEnv) Pure2(x int) int { return x * 2 }
+
 func HarnessC08Compile() {
 	src := vfParamStr("src")
 	var sample interface{} = &vfEnv{}
@@ -87,7 +90,7 @@ func HarnessC08Compile() {
 		sample = vfSampleMapEnv()
 	}
 	visitor := &vfReplacer{0}
-	ops := []Option{Env(sample), Operator("+", "Add"), ConstExpr("Twice"), Patch(visitor)}
+	ops := []Option{Env(sample), Operator("+", "Add"), ConstExpr("Pure2"), Patch(visitor)}
 	if vfParamInt("mapenv") == 1 {
 		ops = []Option{Env(sample), Patch(visitor)}
 	}
